@@ -43,6 +43,9 @@ type Cluster struct {
 	// between two of its write-path steps (the client gave up); such a write may fail, and its
 	// entry may or may not be in the log (Maybe)
 	BurstCancel bool
+	// OnBurstStep, when set, is called at every quiescent point of a write burst with the
+	// entries of the writers that have returned successfully so far
+	OnBurstStep func(node int, acked []ipfslog.Entry)
 	Maybe       map[string]bool
 	wseq        []int
 }
